@@ -18,10 +18,10 @@ from engine import tlc, core, tracecheck
 
 ADAPTER = "harness.adapters_c01:Adapter"
 ACTIONS = ["Choose", "Receive", "Encode", "Modify", "Decode", "Reencode"]
-RUNS = {"quick": ["q_dev", "q_dev_stats", "q_nx", "q_match", "q_uniform", "q_shapes", "q_nxm", "q_recv", "q_mod"],
+RUNS = {"quick": ["q_dev", "q_dev_stats", "q_nx", "q_match", "q_uniform", "q_shapes", "q_nxm", "q_recv", "q_hist", "q_hist2", "q_mod"],
         # (longest first: the runs share the machine through a semaphore)
         "thorough": ["t_long", "t_match_other", "t_shapes", "t_match_fm", "q_dev", "q_dev_stats", "q_nx", "t_nx", "q_match",
-                     "q_uniform", "t_pairs", "q_nxm", "t_recv", "q_shapes", "q_mod"]}
+                     "q_uniform", "t_pairs", "q_nxm", "t_recv", "t_hist", "q_hist", "q_hist2", "q_shapes", "q_mod"]}
 # the recursive codec operators of the spec need a deeper Java stack than the default on long payloads / lists
 JENV = {"JAVA_TOOL_OPTIONS": "-Xss1g"}
 JUNK = {0: [], 8: [(i * 37 + 11) % 256 for i in range(1, 9)], 24: [(i * 37 + 11) % 256 for i in range(1, 25)]}
@@ -113,7 +113,7 @@ def _run(ctx, quick):
   layout = c01_lib.export_layout()
   # 1 + 2: model-check each family, replay what TLC printed
   names = RUNS[ctx.tier]
-  results = _parallel([_export(n) for n in names], 8 if quick else 10)
+  results = _parallel([_export(n) for n in names], 11 if quick else 12)
   agg = collections.Counter()
   own = 0
   keep = []
@@ -162,6 +162,8 @@ def _run(ctx, quick):
     kind = traces[t][0]["args"]["msg"]["k"]
     sig = dict(action=ev["a"], kind=kind, modified=any(e["a"] == "Modify" for e in traces[t][:matched + 1]),
                observed=ev.get("why") or "rejected-by-spec", via="trace")
+    if any(e["a"] == "Modify" and e["args"].get("form") == "wildcards" for e in traces[t][:matched + 1]):
+      sig["wildcards_assigned"] = True
     ctx.report(sig, dict(trace=traces[t], failing_step=matched, note="TLC rejected the trace at this event"))
   ctx.traces += len(traces)
   for t in traces[:3000]:
@@ -438,6 +440,11 @@ def drive(item):
     tr.append(dict(a="Choose", args={"msg": copy.deepcopy(msg)}, obs={"ok": True}, wf=True))
   elif not do("Choose", {"tag": "random/random", "msg": msg}, {"msg": copy.deepcopy(msg)}):
     return tr
+  # construction history: writes on the match before the first encoding, ending in the value it already has
+  if partial is None and rnd.random() < 0.6:
+    for m in c01_lib.match_history(gen, msg):
+      if not do("Modify", m):
+        return tr
   if not do("Encode", {"x": 0}):
     return tr
   nmod = rnd.choice([0, 0, 0, 1, 1, 2])
